@@ -825,6 +825,12 @@ func (c *Client) Start() (addr net.Addr, err error) {
 		// Wait for the command to end.
 		err := runner.Wait(context.Background())
 		verifhook.Point("client.wait.returned", c, 0, 0)
+
+		// The process is gone: cancel the context now rather than when this
+		// goroutine returns. Marking the client as exited below needs the
+		// client lock, which Client() holds while it connects, and a blocking
+		// dial to a dead plugin only gives up when the context is done.
+		c.ctxCancel()
 		if err != nil {
 			c.logger.Error("plugin process exited", "plugin", runner.Name(), "id", runner.ID(), "error", err.Error())
 		} else {
@@ -1071,6 +1077,9 @@ func (c *Client) reattach() (net.Addr, error) {
 
 		// Wait for the process to die
 		r.Wait(context.Background())
+
+		// As in Start: cancel before asking for the client lock below.
+		c.ctxCancel()
 
 		// Log so we can see it
 		c.logger.Debug("reattached plugin process exited")
